@@ -27,9 +27,14 @@ class Verdict:
     detail: str = ""
 
 
-def to_smt2(ob: Obligation) -> str:
+def to_smt2(ob: Obligation, ground_only: bool = False) -> str:
+    """ground_only: keep only the quantifier-free assumptions (a weaker hypothesis: `unsat` is still a proof)."""
+    from .core import _has_quant
+
     s = z3.Solver()
     for a in ob.assumptions:
+        if ground_only and _has_quant(a):
+            continue
         s.add(a)
     if not ob.cover:
         s.add(z3.Not(ob.goal))
@@ -143,7 +148,8 @@ def _solve_cvc5(text: str, timeout_ms: int):
 
 
 def solve_one(job):
-    name, text, timeout_ms, inputs, cover, kind, path_id, line, use_cvc5 = job
+    name, text, timeout_ms, inputs, cover, kind, path_id, line, use_cvc5 = job[:9]
+    text_ground = job[9] if len(job) > 9 else None
     t0 = time.time()
     if text is None:
         return Verdict(name, "unsat", 0.0, "simplifier", kind=kind, path_id=path_id, line=line)
@@ -156,25 +162,56 @@ def solve_one(job):
             st, why = "unknown", str(e)
         status = "sat" if st == "unsat" else "unsat"
         return Verdict(name, status, time.time() - t0, "z3", None, "cover", path_id, line, True, "vacuous: unreachable" if status == "sat" else st)
-    try:
-        st, model, why = _solve_z3(text, int(timeout_ms * scale), inputs, True)
-    except z3.Z3Exception as e:
-        st, model, why = "unknown", None, f"z3 error: {e}"
-    backend = "z3"
-    if st == "unknown":
-        # second z3 configuration: no MBQI (pure E-matching), different seed
+    # portfolio: short slices of each configuration first (the configurations are complementary on quantified and
+    # string obligations), then the full budget
+    has_str = "String" in text or "str." in text
+    quick = int(min(2500, timeout_ms) * scale)
+    full = int(timeout_ms * scale)
+    EM = {"smt.mbqi": False, "smt.random_seed": 7}
+    MB = {"smt.ematching": False}
+    stages = [("z3", {}, quick), ("z3-ematch", EM, quick), ("z3-mbqi", MB, quick)]
+    if use_cvc5 and has_str and "define-fun" not in text:
+        stages.append(("cvc5", None, 2 * quick))
+    if text_ground is not None:
+        stages.append(("ground", None, full))
+    stages += [("z3", {}, full), ("z3-ematch", EM, full), ("z3-mbqi", MB, full)]
+    if use_cvc5 and "define-fun" not in text:
+        stages.append(("cvc5", None, 2 * full))
+    st, model, why, backend = "unknown", None, "", "z3"
+    if text_ground is not None:
+        # quantifier-free slice first: decides most string obligations at once; only `unsat` is conclusive
         try:
-            st2, model2, why2 = _solve_z3(text, int(timeout_ms * scale), inputs, True, {"smt.mbqi": False, "smt.random_seed": 7})
-            if st2 == "unsat":
-                st, model, why, backend = st2, model2, why2, "z3-ematch"
+            st_, _, _ = _solve_z3(text_ground, quick, inputs, False)
         except z3.Z3Exception:
-            pass
-    if st == "unknown" and use_cvc5:
-        st3, why3 = _solve_cvc5(text, int(2 * timeout_ms * scale))
-        if st3 == "unsat":
-            st, backend, why = st3, "cvc5", why3
-        elif st3 == "sat":
-            st, backend, why = "sat", "cvc5", why3
+            st_ = "unknown"
+        if st_ == "unsat":
+            return Verdict(name, "unsat", time.time() - t0, "z3-ground", None, kind, path_id, line, False, "")
+        if use_cvc5 and has_str and "define-fun" not in text_ground:
+            st_, _ = _solve_cvc5(text_ground, quick)
+            if st_ == "unsat":
+                return Verdict(name, "unsat", time.time() - t0, "cvc5-ground", None, kind, path_id, line, False, "")
+    for name_, params, budget in stages:
+        if name_ == "ground":
+            try:
+                st_, _, _ = _solve_z3(text_ground, budget, inputs, False)
+            except z3.Z3Exception:
+                st_ = "unknown"
+            if st_ == "unsat":
+                st, model, why, backend = "unsat", None, "", "z3-ground"
+                break
+            continue
+        if name_ == "cvc5":
+            st_, why_ = _solve_cvc5(text, budget)
+            model_ = None
+        else:
+            try:
+                st_, model_, why_ = _solve_z3(text, budget, inputs, True, params)
+            except z3.Z3Exception as e:
+                st_, model_, why_ = "unknown", None, f"z3 error: {e}"
+        if st_ in ("unsat", "sat"):
+            st, model, why, backend = st_, model_, why_, name_
+            break
+        why = why_ or why
     if cover:
         # cover queries must be satisfiable; "unknown" counts as reachable-not-refuted
         status = "unsat" if st in ("sat", "unknown") else "sat"
@@ -188,7 +225,9 @@ def discharge(obligations: list[Obligation], timeout_ms=10000, procs=None, use_c
         if not ob.cover and z3.is_true(ob.goal):
             jobs.append((ob.name, None, timeout_ms, ob.inputs, False, ob.kind, ob.path_id, ob.line, use_cvc5))
         else:
-            jobs.append((ob.name, to_smt2(ob), timeout_ms, ob.inputs, ob.cover, ob.kind, ob.path_id, ob.line, use_cvc5))
+            full = to_smt2(ob)
+            ground = to_smt2(ob, ground_only=True) if (not ob.cover and ("String" in full or "str." in full)) else None
+            jobs.append((ob.name, full, timeout_ms, ob.inputs, ob.cover, ob.kind, ob.path_id, ob.line, use_cvc5, ground))
     procs = procs or min(16, os.cpu_count() or 4)
     if len(jobs) <= 2 or procs == 1:
         return [solve_one(j) for j in jobs]
